@@ -1,1 +1,2 @@
 import PetlProofs.Order
+import PetlProofs.Props.C04
